@@ -12,7 +12,7 @@
  * asan build. */
 #include "drv_util.h"
 
-static long ncases(int tier) { return tier ? 100000 : 3000; }
+static long ncases(int tier) { return tier ? 300000 : 30000; }
 
 /* GEN-BEGIN (generator shared verbatim by c03.c and c04.c) */
 #define EPS 2.220446049250313e-16
@@ -27,6 +27,7 @@ typedef struct {
   ld kappa, smin;
   double noise;
   int corr, lowdim, icpt, regime, ortho, yorth;
+  size_t yorth_col;
   const char *skip;
 } gcase;
 
@@ -177,7 +178,8 @@ static void gen_case(vh_ctx *c, gcase *g, size_t pmax, size_t nymax, double kmax
         for (i = 0; i < n; i++) v[i] -= m;
         for (k = 0; k < p; k++) { ld d = 0; for (i = 0; i < n; i++) d += v[i] * LM(Us, i, k); for (i = 0; i < n; i++) v[i] -= d * LM(Us, i, k); }
       }
-      for (i = 0; i < n; i++) LM(S, i, 0) = v[i];
+      g->yorth_col = (size_t)vh_int(c, 0, (long)ny - 1);      /* the uninformative dominant response may sit at any index */
+      for (i = 0; i < n; i++) LM(S, i, g->yorth_col) = v[i];
       free(v);
     }
     if (g->corr) for (j = 1; j < ny; j++) { double sg = vh_coin(c, 0.5) ? 1 : -1, own = vh_range(c, 0.05, 0.5); for (i = 0; i < n; i++) LM(S, i, j) = sg * LM(S, i, 0) + own * LM(S, i, j); }
@@ -187,7 +189,7 @@ static void gen_case(vh_ctx *c, gcase *g, size_t pmax, size_t nymax, double kmax
       for (j = 0; j < ny; j++) {
         ld m = 0, v = 0; double unit = vh_logunif(c, -1.0, 2.5), off = 100.0 * (double)(j + (shift ? 1 : 0));
         if (unit < 0.1) unit = 0.1;
-        if (g->yorth) unit = j == 0 ? 400.0 : unit > 100.0 ? 100.0 : unit;
+        if (g->yorth) unit = j == g->yorth_col ? 400.0 : unit > 100.0 ? 100.0 : unit;
         for (i = 0; i < n; i++) m += LM(S, i, j);
         m /= n;
         for (i = 0; i < n; i++) v += (LM(S, i, j) - m) * (LM(S, i, j) - m);
